@@ -131,6 +131,12 @@ def chunk_main(pid, seed, lo, hi, sample_mod, conn, want_samples, all_digests=Fa
                         "violation": res.violation,
                     }
                 )
+            if res.violation is not None and res.violation["kind"].endswith("/nontermination"):
+                # whatever did not come back may have left this process in a
+                # state (a held lock, say) in which nothing comes back any more:
+                # the rest of this chunk is not run here
+                out["stats"]["note:chunk-cut-short-after-nontermination"] += 1
+                break
     except BaseException as exc:  # pylint: disable=broad-except
         out["error"] = "".join(
             traceback.format_exception(type(exc), exc, exc.__traceback__)
@@ -317,7 +323,9 @@ def _shrink_child(pid, v, conn):
 
 def minimise(pid, v):
     """Shrink in a forked child (keeps this process clean; contains hangs)."""
-    if not v["ops"] or v["cfg"] is None:
+    if not v["ops"] or v["cfg"] is None or v["violation"]["kind"].endswith("/nontermination"):
+        # (a history that ends in a call which never returns is not shrunk:
+        # every candidate would have to be waited out)
         return v["ops"], 0, v["violation"]
     parent, child = MP.Pipe(duplex=False)
     p = MP.Process(target=_shrink_child, args=(pid, v, child))
@@ -361,7 +369,7 @@ def do_replay(pid, path):
         )
         return cp.returncode
     signal.signal(signal.SIGALRM, _alarm)
-    signal.setitimer(signal.ITIMER_REAL, 300)
+    signal.setitimer(signal.ITIMER_REAL, getattr(prop, "run_wall_s", 300))
     try:
         res = engine.run_replay(prop, body["config"], body["ops"], body.get("run_seed", 0))
     except Watchdog:
